@@ -1,6 +1,7 @@
 import EaselModel.Core.Proto
 import EaselModel.Dsqdata.Codec
 import EaselModel.Dsqdata.Loader
+import EaselModel.Dsqdata.Meta
 import EaselModel.WorkQueue.Model
 import EaselModel.Threads.Model
 import EaselModel.Pipeline.Progress
@@ -316,20 +317,28 @@ def dsqrt (ws : List String) : String :=
     match loaderChunks maxseq maxpacket (idx.length + 1) (LState.init idx) with
     | none => "fault"
     | some cs =>
-      -- what the unpackers deliver, chunk by chunk
+      -- what the unpackers deliver, chunk by chunk: sequences from the packets, metadata from the metadata bytes
       let allp := packs.flatten
-      let (_, ok, seqs) := cs.foldl (fun (acc : List UInt32 × Bool × List (List UInt8)) c =>
-          let (rest, ok, out) := acc
+      let le4 (t : Int) : List UInt8 := let n := (t % (2^32 : Int)).toNat; [UInt8.ofNat (n % 256), UInt8.ofNat (n / 256 % 256), UInt8.ofNat (n / 65536 % 256), UInt8.ofNat (n / 16777216 % 256)]
+      let recs : List MetaRec := (List.range names.length).map fun i =>
+        { name := names.getD i [], acc := accs.getD i [], desc := descs.getD i [], tax := le4 (taxids.getD i (-1)) }
+      let allm := recs.flatMap encodeMeta
+      let (_, _, ok, seqs, metas') := cs.foldl (fun (acc : List UInt32 × List UInt8 × Bool × List (List UInt8) × List MetaRec) c =>
+          let (rest, mrest, ok, out, mout) := acc
           let mine := rest.take c.pn.toNat
-          match unpackChunk amino mine with
-          | some d => (rest.drop c.pn.toNat, ok && d.length == c.n, out ++ d)
-          | none => (rest.drop c.pn.toNat, false, out)) (allp, true, [])
+          let mmine := mrest.take c.nmeta.toNat
+          match unpackChunk amino mine, parseMeta c.n mmine with
+          | some d, some m => (rest.drop c.pn.toNat, mrest.drop c.nmeta.toNat, ok && d.length == c.n, out ++ d, mout ++ m)
+          | _, _ => (rest.drop c.pn.toNat, mrest.drop c.nmeta.toNat, false, out, mout)) (allp, allm, true, [], [])
       if !ok then "fault" else
       let h := (List.range seqs.length).foldl (fun h i =>
-          let h := fnvBytes h (names.getD i []); let h := fnvByte h 0
-          let h := fnvBytes h (accs.getD i []); let h := fnvByte h 0
-          let h := fnvBytes h (descs.getD i []); let h := fnvByte h 0
-          let h := fnvNat h ((taxids.getD i (-1)) % (2^64 : Int)).toNat   -- taxid as two's-complement int64
+          let r := metas'.getD i { name := [], acc := [], desc := [], tax := [] }
+          let h := fnvBytes h r.name; let h := fnvByte h 0
+          let h := fnvBytes h r.acc; let h := fnvByte h 0
+          let h := fnvBytes h r.desc; let h := fnvByte h 0
+          -- taxid as a sign-extended int64
+          let t := (r.tax.getD 0 0).toNat + 256 * (r.tax.getD 1 0).toNat + 65536 * (r.tax.getD 2 0).toNat + 16777216 * (r.tax.getD 3 0).toNat
+          let h := fnvNat h (if t ≥ 2^31 then t + (2^64 - 2^32) else t)
           let d := seqs.getD i []
           let h := fnvNat h d.length
           fnvBytes h d) fnv0
